@@ -532,6 +532,9 @@ class CmpExtractor:
                 self.alt = old_alt + (f"m{mid}.{ai}:{self.arm_name(a['pat'])}",)
             if top:
                 self.arm = self.arm_name(a["pat"])
+                cross = self.cross_variants(a["pat"])
+                if cross:
+                    self.add("cross-variant-arm", pairs=cross)
             if a.get("guard"):
                 self.cond(a["guard"], env2, None)
             self.body_expr(a["body"], env2, result)
@@ -541,6 +544,22 @@ class CmpExtractor:
             self.arm = old
         self.alt = old_alt
         self.resume(d0)
+
+    def cross_variants(self, p):
+        """a tuple pattern whose components are or-patterns admits every combination: `(A(a) | B(a), A(b) | B(b))` also matches an A
+        on one side and a B on the other. Returns the mixed combinations (empty for `(A, A) | (B, B)`, which only lists the diagonal)"""
+        if p.get("k") == "Or":
+            return [c for q in p["pats"] for c in self.cross_variants(q)]
+        if p.get("k") != "Leaf" or len(p.get("subs", [])) != 2:
+            return []
+        alts = []
+        for s_ in p["subs"]:
+            q = s_["p"]
+            vs = [r["variant"] for r in (q["pats"] if q.get("k") == "Or" else [q]) if r.get("k") == "Variant"]
+            if not vs:
+                return []
+            alts.append(vs)
+        return [f"{a} vs {b}" for a in alts[0] for b in alts[1] if a != b]
 
     def arm_name(self, p):
         k = p.get("k")
